@@ -27,14 +27,14 @@ structure OEv where
   tag : String
   res : ORes
   clock : Snap
-  caches : List (OV × Int × Nat × Nat)   -- per generator: _Dynamic_last, _Dynamic_time, len of both saved lists
+  caches : List (OV × Option Int × Nat × Nat)   -- per generator: _Dynamic_last, _Dynamic_time, len of both saved lists
   touched : Option Touched
   gens : List Nat
   deriving Repr
 
 structure Frame where
   inst : String
-  caches : List (OV × Int × Nat × Nat)   -- as reported right after the push
+  caches : List (OV × Option Int × Nat × Nat)   -- as reported right after the push
   gens : List Nat
   dirty : Bool
 
